@@ -58,6 +58,10 @@ add("C12", "crash-point enumeration: the n-th database callback panics, for ever
     "A counting wrapper around the program database records the N callbacks of a clean solve; for EVERY n in 1..N the n-th callback panics (whichever method it is), the panic is caught, and the same goal and every other alphabet goal are then solved on the same solver: no panic, and answers equal to a fresh solver's. Thorough adds every second crash point m <= 25 in the retry.",
     "Panics are injected only from database callbacks. Programs are a deterministic thinning of the corpus (stride reported).",
     "DESIGN.md §4 C12", category="fault_enumeration")
+add("C13", "exhaustive enumeration of reorderings (all impl permutations, where-clause reversal, all trait and struct permutations, impls before declarations, everything reversed) of every corpus program; differential oracle against the source order",
+    "Each reordered program is parsed, lowered and solved afresh by both solvers for the selected goals; the decoded answer (ids mapped to names, constraints included) must equal the source-order answer unless REF shows the search exceeds the solver's size limit.",
+    "Reorderings are per block (impls / traits / structs) rather than all permutations of the flat item list, plus two cross-block placements.",
+    "DESIGN.md §4 C13")
 add("C14", "explicit-state breadth-first search over real InferenceTables (clonable states, canonical-state dedup), every transition compared with a reference unifier",
     "From a table with unknowns in three universes, integer/float unknowns and placeholders of two universes, every ordered pair of a term set (ADTs incl. a covariant one, tuples, slices, raw pointers, scalars; depth <= 3) is related invariantly from every reachable table state up to the tier's depth; success must coincide with REF-unifiability (occurs check, universe visibility, kinds) and the resulting table must be alpha-equivalent to REF's most general unifier including universes; covariant relation of lifetime-free types must agree after discharging its returned subtype goals.",
     "Trusted: the reference unifier in harness/src/props/c14.rs. Bounds: term depth, search depth 2 (quick) / 3 (thorough), frontier cap reported.",
@@ -82,6 +86,14 @@ add("C19", "exhaustive enumeration of impl multisets of one trait (identical, bl
     "Every multiset of up to 3 (thorough 4) impls from 6 heads x where-clause x polarity, x 3 sets of supporting impls x plain/#[marker], both solvers: specialization_priorities must never panic; when it accepts a non-marker trait, two impls of equal priority must share no ground trait reference and an impl applying to a strict non-empty subset of another's references must have the higher priority.",
     "Ground sets over types of depth <= 3 (4 thorough); only concrete common witnesses alarm. Marker traits: only totality is judged.",
     "DESIGN.md §4 C19")
+add("C20", "exhaustive enumeration of impl headers (1-3 type arguments from a 13-entry menu, local or upstream trait) through the real orphan check, compared with the orphan rule of the statement",
+    "Every impl `impl<T?> Tr<A1, A2> for A0` with arguments from {local, upstream, fundamental-upstream around local/upstream/parameter, non-fundamental upstream around parameter/scalar/local, scalar, tuples, bare parameter} (about 2*13^3 programs): perform_orphan_check must accept exactly when the trait is local or some argument is local (through fundamental constructors) with no impl parameter mentioned before it; both solvers.",
+    "Trusted: the 6-line statement of the rule in harness/src/props/c20.rs.",
+    "DESIGN.md §4 C20")
+add("C21", "exhaustive enumeration of declaration variants x impl subsets through checked_program; every accepted program is judged over a bounded universe of ground types",
+    "24 declaration variants (supertrait on/off, struct where-clauses and field types that do or do not carry the needed bounds) x all subsets of 8 impls with sound or missing bounds: for each program the WF checker accepts, every well-formed ground type that implements a trait must satisfy the trait's where-clauses, and every field type of a well-formed struct instance must be well-formed (types of depth <= 3, thorough 4). Rejected programs are counted, not judged.",
+    "Trusted: REF's definition of WF(type) and lfp implementation facts.",
+    "DESIGN.md §4 C21")
 add("C22", "exhaustive products of item features rendered to text; two write/parse/lower round trips compared as Program values under the normalization the statement allows",
     "Ten families (ADT attributes and bodies, trait attributes and bodies, impls, opaque types, fn definitions, type forms in every position, name clashes), each a full product of small option lists (1.4*10^5 programs quick, 3.3*10^6 thorough): lower(write(P0)) must be equivalent to P0 (where-clauses as sets, implied trait bound of an equality bound added, names up to a bijection), the second round trip must reproduce text and program exactly where no equality bound or clash is involved, and a collapsed-names pass exercises the disambiguator.",
     "Written by a helper agent; parses with a persistent ProgramParser per thread (same grammar). Four writer mutants (dropped #[marker], dropped `!`, swapped outlives sides, broken disambiguation) were detected. 16 genuine writer omissions/collisions are listed as findings D20/D21.",
